@@ -303,6 +303,8 @@ def ma_eval(ma, vals):
         return ema(ma[1], vals)
     if ma[0] == "Sma":
         return sma(ma[1], vals)
+    if ma[0] == "Ss":
+        return ss(ma[1], vals)
     raise KeyError(ma)
 def eft(n, ma, xs):
     out, fed, fish, q = [], [], [], None
